@@ -142,6 +142,18 @@ func checkC10(c *Ctx) {
 						})
 					}
 				}
+				if !isLen {
+					// ... decoded inside a helper and handed back: the value the result's Length is
+					// set from evaluates, along the activations of the view, to this very cell
+					dv := c.deepViewOf(rw, 4)
+					dv.throughFields = true
+					for _, di := range dv.storesToField(sigPkg + ".WINCertificate.Length") {
+						if a := dv.affine(di.i.(*ssa.Store).Val, di.fr, nil, 0); a.K == 0 && len(a.T) == 1 && a.T[k] == 1 {
+							isLen = true
+						}
+					}
+					dv.throughFields = false
+				}
 				if isLen && v == 1 && len(la.T) == 1 && la.K == int64(-hdr) {
 					ok = true
 				}
